@@ -142,14 +142,22 @@ func (f *fakeConn) RemoteAddr() net.Addr { return f.remote }
 var nonceSeq uint64
 
 // remoteHandshake plays the remote side of the version/verack exchange and then keeps draining what the peer sends.
-func remoteHandshake(c net.Conn, serverSideInbound bool, lastBlock int32, bsvnet wire.BitcoinNet) {
+// skew is added to the timestamp the remote puts into its version message (a remote's clock is the remote's business);
+// with noAck the remote never sends its verack (a peer that leaves, or stalls, between version and verack).
+func remoteHandshake(c net.Conn, serverSideInbound bool, lastBlock int32, bsvnet wire.BitcoinNet, skew time.Duration, noAck bool) {
 	me := wire.NewNetAddressIPPort(net.ParseIP("44.0.0.1"), 8333, wire.SFNodeNetwork)
 	you := wire.NewNetAddressIPPort(net.ParseIP("44.0.0.2"), 8333, 0)
 	ver := wire.NewMsgVersion(me, you, atomic.AddUint64(&nonceSeq, 1)+uint64(time.Now().UnixNano()), lastBlock)
 	ver.AddService(wire.SFNodeNetwork)
 	_ = ver.AddUserAgent("verif-node", "1.0")
 	ver.ProtocolVersion = int32(wire.ProtocolVersion)
-	send := func(m wire.Message) { _ = wire.WriteMessage(c, m, wire.ProtocolVersion, bsvnet) }
+	ver.Timestamp = time.Unix(time.Now().Add(skew).Unix(), 0)
+	send := func(m wire.Message) {
+		if _, isAck := m.(*wire.MsgVerAck); isAck && noAck {
+			return
+		}
+		_ = wire.WriteMessage(c, m, wire.ProtocolVersion, bsvnet)
+	}
 	if serverSideInbound {
 		go send(ver)
 	}
@@ -245,6 +253,22 @@ func opAdmission() error {
 			banned: map[string]time.Time{}, outboundGroups: map[string]int{}, connectionCount: map[string]int{}}
 		byID := map[int]*serverPeer{}
 		banAt := map[int]time.Time{}
+		// what the model leaves open, varied by the harness: the clocks of the remotes (the timestamps of their version
+		// messages feed the server's network-adjusted time: a fresh time source per behaviour, pre-seeded so that the
+		// median offset jumps at the 1st..5th handshake of the behaviour, forwards or backwards by 40 minutes), and peers
+		// that never send their verack (admitted on their version message, gone before the handshake completed)
+		skew := time.Duration(0)
+		ts := config.NewMedianTime(&r.log)
+		if idx%3 != 0 {
+			skew = 40 * time.Minute
+			if (idx/5)%2 == 1 {
+				skew = -skew
+			}
+			for i := 0; i < idx%5; i++ {
+				ts.AddTimeSample(fmt.Sprintf("verif-seed-%d", i), time.Now().Add(skew))
+			}
+		}
+		r.srv.timeSource = ts
 		advances := 0
 		miss := func(k int, kind, exp, got string) {
 			out = append(out, chainh.Mismatch{Beh: idx, Step: k, Kind: kind, Exp: exp, Got: got})
@@ -270,10 +294,11 @@ func opAdmission() error {
 					}
 					sp.Peer = p
 				}
-				go remoteHandshake(c2, st.Dir == "in", 0, r.params.Net)
+				noAck := (idx+k)%4 == 1
+				go remoteHandshake(c2, st.Dir == "in", 0, r.params.Net, skew, noAck)
 				sp.AssociateConnection(conn)
 				deadline := time.Now().Add(5 * time.Second)
-				for !(sp.VersionKnown() && sp.VerAckReceived()) && time.Now().Before(deadline) {
+				for !(sp.VersionKnown() && (noAck || sp.VerAckReceived())) && time.Now().Before(deadline) {
 					time.Sleep(100 * time.Microsecond)
 				}
 				if !sp.VersionKnown() {
